@@ -252,7 +252,14 @@ def run_state_fit(nord, S, pc, mask, rng, notes):
         mk[g - 1] = True
     s.mask = mk
     x, y, w = cell_data(nord, S, pc, rng)
-    return call_fit(s, x, y, w), (x, y, w)
+    return call_fit(s, x, y, w), (x, y, w), s
+
+
+def poly_for(nord, rng, lo, hi, amp=1.0):
+    """A polynomial of degree nord - 1 (callable) with coefficients of order amp in the variable (x-lo)/(hi-lo)."""
+    cs = [amp * rng.uniform(-1, 1) for _ in range(nord)]
+    cs[-1] = amp * rng.choice([-1, 1]) * rng.uniform(0.3, 1.0)
+    return lambda xx: sum(cv * ((np.asarray(xx, dtype='d') - lo) / (hi - lo)) ** e for e, cv in enumerate(cs))
 
 
 # ---------------------------------------------------------------------------------------------
@@ -313,6 +320,94 @@ def units(v, scale):
     if not np.isfinite(v):
         return CAP
     return int(min(CAP, math.ceil(v / (1e-9 * scale))))
+
+
+def masked_measure(s, x, y, w, yfit, rng, poly=None):
+    """Measurements on an object some of whose breakpoints are masked, against the spline space of the MASKED
+    knot vector breakpoints[mask] built independently (design_matrix): coefficients / fitted values vs the dense
+    weighted least squares, action() / bsplvn() rows vs the Cox-de Boor basis (partition of unity), value() vs the
+    basis applied to the stored coefficients, and for polynomial data (poly = callable) reproduction by yfit / value().
+    Returns dict(disc, bdisc, parts) in units of 1e-9 of the scale, or dict(exc=...)."""
+    k = int(s.nord)
+    mk = np.array(s.mask, dtype=bool)
+    tm = np.asarray(s.breakpoints, dtype='d')[mk]
+    lo, hi = tm[k - 1], tm[tm.size - k]
+    inr = (x >= lo) & (x <= hi)
+    xin = x[inr]
+    parts = {}
+    try:
+        A = design_matrix(tm, k, xin)
+        n = tm.size - k
+        cm = np.asarray(s.coeff, dtype='d')[mk[k:]]
+        # basis consistency (whatever the status)
+        indx = np.asarray(s.intrv(xin))
+        act, lw, up = s.action(xin)
+        act = np.asarray(act, dtype='d')
+        bsv = np.asarray(s.bsplvn(xin, indx), dtype='d')
+        full = np.zeros((xin.size, n))
+        for i in range(xin.size):
+            full[i, indx[i] - k + 1:indx[i] + 1] = act[i]
+        parts['action'] = units(np.abs(full - A).max() if xin.size else 0.0, 1.0)
+        parts['unity'] = units(np.abs(act.sum(axis=1) - 1.0).max() if xin.size else 0.0, 1.0)
+        parts['bsplvn'] = units(np.abs(bsv - act).max() if xin.size else 0.0, 1.0)
+        px = np.array(sorted([rng.uniform(lo, hi) for _ in range(12)] + [lo, hi]), dtype='d')
+        val, vm = s.value(px)
+        vm = np.asarray(vm, dtype=bool)
+        ref = design_matrix(tm, k, px).dot(cm)
+        cs = max(1.0, np.abs(cm).max()) if np.all(np.isfinite(cm)) else 1.0
+        parts['value'] = units(np.abs(np.asarray(val)[vm] - ref[vm]).max() if vm.any() else 0.0, cs)
+        bdisc = max(parts.values())
+        # optimality (judged by TLC only for status 0 on a determined system)
+        disc = 0
+        sw = np.sqrt(w[inr])
+        sol, res, rank, sv = np.linalg.lstsq(A * sw[:, None], y[inr] * sw, rcond=None)
+        condok = False
+        if rank == n and yfit is not None:
+            # the code solves the normal equations: forward error ~ cond^2 * eps; the unit grows accordingly and
+            # numerically singular (though formally determined) systems are not compared
+            kappa = sv[0] / sv[-1] if sv[-1] > 0 else np.inf
+            parts['log10cond_x10'] = int(10 * np.log10(kappa)) if np.isfinite(kappa) and kappa > 0 else CAP
+            condok = bool(kappa <= 1e5)
+        if condok:
+            scale = max(np.abs(sol).max(), np.abs(y[inr]).max() * 1e-3, 1e-300) * max(1.0, kappa ** 2 * 1.1e-8)
+            parts['coeff'] = units(np.abs(cm - sol).max(), scale)
+            parts['yfit'] = units(np.abs(np.asarray(yfit)[inr] - A.dot(sol)).max(), scale)
+            disc = max(parts['coeff'], parts['yfit'])
+            if poly is not None:
+                ps = max(np.abs(poly(xin)).max(), 1e-300) * max(1.0, kappa ** 2 * 1.1e-8)
+                parts['polyfit'] = units(np.abs(np.asarray(yfit)[inr] - poly(xin)).max(), ps)
+                parts['polyval'] = units(np.abs(np.asarray(val)[vm] - poly(px)[vm]).max() if vm.any() else 0.0, ps)
+                disc = max(disc, parts['polyfit'], parts['polyval'])
+        return {'disc': disc, 'bdisc': bdisc, 'parts': parts, 'exc': '', 'condok': condok}
+    except Exception as ex:
+        return {'disc': 0, 'bdisc': 0, 'parts': parts, 'exc': 'measuring a masked object: ' + short_exc(ex), 'condok': False}
+
+
+def masked_record(law, nord, S, pc, maskgood, st, finite, meas, src, data=None):
+    return {'kind': 'fitlaw', 'law': law, 'nord': nord, 'S': S, 'pc': list(pc), 'mask': sorted(int(g) for g in maskgood),
+            'st': [st if isinstance(st, int) else 99], 'finite': bool(finite), 'exc': meas['exc'], 'disc': meas['disc'],
+            'bdisc': meas['bdisc'], 'condok': bool(meas.get('condok', False)), 'tol': LAWTOL, 'altered': [], 'zeroidx': [], 'parts': meas['parts'], 'src': src,
+            '_data': data}
+
+
+def judge_records(ctx, recs, chunk=1500):
+    """core.validate_records plus the set of law instances whose optimum TLC actually compared (tid = -1)."""
+    bad, compared = {}, set()
+    for base in range(0, len(recs), chunk):
+        part = [{kk: v for kk, v in r.items() if not kk.startswith('_')} for r in recs[base:base + chunk]]
+        path = core.write_json('%s/c09_recs_%d.json' % (ctx.scratch, base), part)
+        r = ctx.tlc('Trace_BSplineFit.tla', 'Trace_BSplineFit.cfg', dump=True, env={'VERIF_TRACE': path}, count=False,
+                    label='Trace_BSplineFit[%d:%d]' % (base, base + len(part)), timeout=1500)
+        seen = 0
+        for st in core.iter_states(r):
+            seen += 1
+            if not st['ok']:
+                bad[base + st['i'] - 1] = st.get('why', '')
+            elif st['tid'] == -1:
+                compared.add(base + st['i'] - 1)
+        if seen != len(part):
+            raise core.MachineryError('Trace_BSplineFit judged %d of %d records' % (seen, len(part)))
+    return bad, compared
 
 
 # ---------------------------------------------------------------------------------------------
@@ -453,7 +548,7 @@ def law_records(rng, count, quick, stats):
         law = ('lstsq', 'zw', 'lin', 'poly')[r % 4]
         k, bk, x, y, w, amp = float_problem(rng, quick)
         rec = {'kind': 'fitlaw', 'law': law, 'nord': k, 'S': 0, 'pc': [0], 'st': [], 'finite': True, 'exc': '',
-               'disc': 0, 'tol': LAWTOL, 'altered': [], 'zeroidx': []}
+               'disc': 0, 'bdisc': 0, 'condok': True, 'mask': [], 'tol': LAWTOL, 'altered': [], 'zeroidx': []}
         try:
             s = sset_on(k, bk, x)
         except Exception as ex:              # constructor trouble is C08's subject
@@ -465,6 +560,7 @@ def law_records(rng, count, quick, stats):
             stats['unabstractable'] = stats.get('unabstractable', 0) + 1
             continue
         rec['S'], rec['pc'] = ab
+        rec['mask'] = list(range(1, knots.size + 1))
 
         def fit1(yy, ww):
             s1 = sset_on(k, bk, x)
@@ -560,9 +656,19 @@ def loop_history(rng, notes, big):
                 pc[2 * g] = 1
     s = make_sset(nord, knots_for(nord, S), notes)
     x, y, w = cell_data(nord, S, pc, rng)
+    pf = None
+    if rng.random() < 0.5:
+        pf = poly_for(nord, rng, 0.0, float(S), 3.0)
+        y = pf(x)
     events = []
+    mrecs = []
     for _ in range(S):
         o = call_fit(s, x, y, w)
+        if not o['exc'] and not o['before'].all():
+            meas = masked_measure(s, x, y, w, o['yfit'], rng, poly=pf) if o['st'] == 0 else \
+                masked_measure(s, x, y, w, None, rng)
+            mrecs.append(masked_record('masked-poly' if pf else 'masked', nord, S, pc, good(o['before']), o['st'], o['finite'],
+                                       meas, 'loop/' + style, {'x': x.tolist(), 'y': y.tolist(), 'w': w.tolist()}))
         if o['exc']:
             events.append({'a': 'raise', 'exc': o['exc'], 'mask': good(o['before'])})
             break
@@ -571,15 +677,18 @@ def loop_history(rng, notes, big):
         if o['st'] in (0, -2) or not isinstance(o['st'], int):
             break
     return {'nord': nord, 'S': S, 'pc': pc, 'maxfits': S, 'events': events, 'src': 'loop/' + style,
-            'data': {'x': x.tolist(), 'y': y.tolist(), 'w': w.tolist()}}
+            'data': {'x': x.tolist(), 'y': y.tolist(), 'w': w.tolist()}, 'masked': mrecs}
 
 
 class Recorder(object):
     """Wraps bspline.fit for the duration of one iterfit call."""
-    def __init__(self, m):
+    def __init__(self, m, rng=None, poly=None):
         self.m = m
         self.events = []
         self.orig = m.bspline.fit
+        self.rng = rng
+        self.poly = poly
+        self.meas = []          # (good knots before, status, finite, measurements) of fits on objects with dropped breakpoints
 
     def __enter__(self):
         rec = self
@@ -595,6 +704,12 @@ class Recorder(object):
             fin = bool(np.all(np.isfinite(np.asarray(sself.coeff, dtype='d'))) and np.all(np.isfinite(np.asarray(yfit, dtype='d'))))
             rec.events.append({'a': 'fit', 'mask': good(before), 'after': good(np.array(sself.mask, dtype=bool)),
                                'st': int(st) if isinstance(st, (int, np.integer)) else 99, 'finite': fin})
+            if rec.rng is not None and not before.all() and x2 is None:
+                st0 = isinstance(st, (int, np.integer)) and int(st) == 0
+                xd, yd, wd = (np.asarray(v, dtype='d') for v in (xdata, ydata, invvar))
+                rec.meas.append((good(before), int(st) if isinstance(st, (int, np.integer)) else 99, fin,
+                                 masked_measure(sself, xd, yd, wd, np.asarray(yfit, dtype='d') if st0 else None, rec.rng,
+                                                poly=rec.poly if st0 else None)))
             return ret
         self.m.bspline.fit = fit
         return self
@@ -639,6 +754,10 @@ def iterfit_history(rng, stats):
         w = np.where((u > a) & (u < a + rng.uniform(0.15, 0.35)), 0.0, w)
     x = x0 + span * u
     y = np.sin(4 * u) * 3 + np.array([rng.gauss(0, 0.1) for _ in u])
+    pf = None
+    if rng.random() < 0.5:
+        pf = poly_for(nord, rng, x0, x0 + span, 3.0)
+        y = pf(x)
     kw = {'nord': nord}
     if how == 'bkspace':
         kw['bkspace'] = span / nseg * rng.uniform(0.9, 1.1)
@@ -655,7 +774,7 @@ def iterfit_history(rng, stats):
     if rng.random() < 0.5:
         rng.shuffle(perm)
     events, sset, exc = [], None, None
-    with Recorder(m) as rec:
+    with Recorder(m, rng, pf) as rec:
         try:
             sset, outmask = m.iterfit(x[perm], y[perm], invvar=w[perm], upper=1e30, lower=1e30, maxiter=maxiter, **kw)
         except ValueError as ex:
@@ -691,6 +810,8 @@ def iterfit_history(rng, stats):
         stats['unabstractable'] = stats.get('unabstractable', 0) + 1
         return dict(hist, S=0, pc=[], weak=True)        # judged without a support problem (records mode, kind "run")
     hist['S'], hist['pc'] = ab
+    hist['masked'] = [masked_record('masked-poly' if pf else 'masked', nord, ab[0], ab[1], gk, st, fin2, meas, src, hist['data'])
+                      for gk, st, fin2, meas in rec.meas]
     return hist
 
 
@@ -814,6 +935,8 @@ def run_machine(ctx, notes):
     seen = set()
     nbad = 0
     stat = {}
+    masked = []
+    nmasked = nmasked_ok = 0
     for st in core.iter_states(r):
         if st['phase'] != 'fitting' or st['status'] not in (1, -1) or st['nfits'] >= st['prob']['maxfits']:
             continue
@@ -823,8 +946,32 @@ def run_machine(ctx, notes):
             continue
         seen.add(key)
         exp = st['exp']
-        obs, data = run_state_fit(P['nord'], P['S'], P['pc'], st['bkmask'], rng, notes)
+        obs, data, sobj = run_state_fit(P['nord'], P['S'], P['pc'], st['bkmask'], rng, notes)
         bad = judge_fit(obs, exp['allowed'], exp['droppable'])
+        if len(st['bkmask']) < P['S'] + 2 * P['nord'] - 1 and not obs['exc']:
+            # breakpoints had been dropped before this fit: basis consistency always, optimality when it answered 0
+            nmasked += 1
+            if obs['st'] == 0 and exp['determined']:
+                nmasked_ok += 1
+            if True:
+                mrng = random.Random(ctx.seed * 31 + nmasked)
+                dd = {'x': data[0].tolist(), 'y': data[1].tolist(), 'w': data[2].tolist()}
+                meas = masked_measure(sobj, data[0], data[1], data[2], obs['yfit'], mrng)
+                masked.append(masked_record('masked', P['nord'], P['S'], P['pc'], good(obs['before']), obs['st'], obs['finite'],
+                                            meas, 'machine', dd))
+                if obs['st'] == 0:
+                    # the same object state, polynomial data of degree < order
+                    s2 = make_sset(P['nord'], knots_for(P['nord'], P['S']), notes)
+                    s2.mask = obs['before'].copy()
+                    pf = poly_for(P['nord'], mrng, 0.0, float(P['S']), 3.0)
+                    yp = pf(data[0])
+                    o2 = call_fit(s2, data[0], yp, data[2])
+                    if o2['exc']:
+                        meas2 = {'disc': 0, 'bdisc': 0, 'parts': {}, 'exc': o2['exc'], 'condok': False}
+                    else:
+                        meas2 = masked_measure(s2, data[0], yp, data[2], o2['yfit'], mrng, poly=pf)
+                    masked.append(masked_record('masked-poly', P['nord'], P['S'], P['pc'], good(obs['before']), o2['st'],
+                                                o2['finite'], meas2, 'machine', dict(dd, y=yp.tolist())))
         ctx.evaluated(1, 'machine-step')
         ctx.validated()
         stat[obs['st']] = stat.get(obs['st'], 0) + 1
@@ -844,13 +991,16 @@ def run_machine(ctx, notes):
     notes['machine_steps'] = len(seen)
     notes['machine_status_counts'] = {str(k): v for k, v in stat.items()}
     notes['machine_failures'] = nbad
+    notes['machine_masked_fits'] = nmasked
+    notes['machine_masked_status0_determined'] = nmasked_ok
+    notes['_masked_records'] = masked
 
 
 def run_histories(ctx, notes):
     rng = random.Random(ctx.seed + 2)
     stats = {}
     hists = []
-    nloop, niter = (150, 150) if ctx.quick else (2500, 2500)
+    nloop, niter = (220, 220) if ctx.quick else (2500, 2500)
     for k in range(nloop):
         hists.append(loop_history(rng, notes, big=not ctx.quick))
     for k in range(niter):
@@ -890,6 +1040,8 @@ def run_histories(ctx, notes):
             k + 1, ev, [(e.get('st'), e.get('a')) for e in h['events'][:k]], h['nord'], h['S'], h['pc'], h['src']),
             'kind': 'history', 'history': jsonable({kk: h[kk] for kk in ('nord', 'S', 'pc', 'maxfits', 'events', 'src')}),
             'data': h['data']}, finding=classify((ev or {}).get('exc') or ''))
+    notes['_masked_records'] = notes.get('_masked_records', []) + [mr for h in hists for mr in h.get('masked', [])]
+    stats['masked_fit_records'] = sum(len(h.get('masked', [])) for h in hists)
     stats['histories'] = srcs
     stats['refused'] = len(refused) + len(unabs)
     notes['histories'] = stats
@@ -901,9 +1053,24 @@ def run_records(ctx, notes):
     recs = chol_records(rng, 400 if ctx.quick else 6000)
     recs += law_records(rng, 240 if ctx.quick else 4000, ctx.quick, stats)
     weak = notes.pop('weak_histories', [])
-    recs += [{'kind': 'run', 'events': h['events'], 'src': h['src'], 'data': h['data'], 'exc': ''} for h in weak]
+    recs += [{'kind': 'run', 'events': h['events'], 'src': h['src'], '_data': h['data'], 'exc': ''} for h in weak]
     stats['weak_histories_judged'] = len(weak)
-    bad = core.validate_records(ctx, 'Trace_BSplineFit', recs, chunk=1500)
+    masked = notes.pop('_masked_records', [])
+    recs += masked
+    bad, compared = judge_records(ctx, recs)
+    # the optimality laws on objects with dropped breakpoints must not be vacuous
+    mcomp = {'machine': 0, 'loop': 0, 'iterfit': 0}
+    for k, rec in enumerate(recs):
+        if rec.get('law') in ('masked', 'masked-poly') and (k in compared):
+            mcomp[rec['src'].split('/')[0]] += 1
+            for nm, v in rec['parts'].items():
+                stats['max_masked_' + nm] = max(stats.get('max_masked_' + nm, 0), v)
+    stats['masked_records'] = len(masked)
+    stats['masked_optimum_compared'] = mcomp
+    need = {'machine': 150, 'loop': 10, 'iterfit': 10} if ctx.quick else {'machine': 1500, 'loop': 300, 'iterfit': 300}
+    short = {kk: (mcomp[kk], need[kk]) for kk in need if mcomp[kk] < need[kk]}
+    if short and not bad and not ctx.violations:
+        raise core.MachineryError('too few status-0 fits on objects with dropped breakpoints had their optimum compared: %r' % short)
     ctx.evaluated(len(recs), 'records')
     ctx.validated(len(recs))
     for k, rec in enumerate(recs):
@@ -918,7 +1085,7 @@ def run_records(ctx, notes):
         if n > MAXREPORT:
             break
         rec = recs[k]
-        brief = {kk: v for kk, v in rec.items() if kk not in ('ab', 'L', 'x', 'b', 'pc', 'altered', 'zeroidx', 'data')}
+        brief = {kk: v for kk, v in rec.items() if kk not in ('ab', 'L', 'x', 'b', 'pc', 'altered', 'zeroidx', '_data', 'events')}
         ctx.violation({'what': 'recorded %s refused by Trace_BSplineFit (%s): %s' % (rec['kind'], bad[k], brief),
                        'kind': 'record', 'record': rec, 'why': bad[k], 'seed': ctx.seed},
                       finding=classify(rec.get('exc') or ''))
@@ -1025,9 +1192,25 @@ def replay(ctx, case):
             ref = validate_histories(ctx, [dict(h, events=ev)], 'replay')
             bad = 'history still refused at event %d' % (ref[0] + 1) if ref else None
     elif kind == 'record':
-        rec = case['record']
-        print('recorded observation (re-judged by TLC as recorded; regenerate with VERIF_SEED=%s):' % case.get('seed'))
-        b = core.validate_records(ctx, 'Trace_BSplineFit', [rec])
+        rec = dict(case['record'])
+        d = rec.get('_data')
+        if rec.get('law') in ('masked', 'masked-poly') and d and rec.get('src', '').split('/')[0] in ('machine', 'loop'):
+            # re-execute: same knots, same mask, same data
+            s = make_sset(rec['nord'], knots_for(rec['nord'], rec['S']), notes)
+            mk = np.zeros(s.mask.shape, dtype=bool)
+            for g in rec['mask']:
+                mk[g - 1] = True
+            s.mask = mk
+            x, y, w = np.array(d['x']), np.array(d['y']), np.array(d['w'])
+            o = call_fit(s, x, y, w)
+            print('fit on the masked object now: status %r exc %r' % (o['st'], o['exc']))
+            meas = {'disc': 0, 'bdisc': 0, 'parts': {}, 'exc': o['exc']} if o['exc'] else \
+                masked_measure(s, x, y, w, o['yfit'] if o['st'] == 0 else None, random.Random(1))
+            print('measured now (units of 1e-9):', meas)
+            rec = masked_record(rec['law'], rec['nord'], rec['S'], rec['pc'], rec['mask'], o['st'], o['finite'], meas, rec['src'])
+        else:
+            print('recorded observation (re-judged by TLC as recorded; regenerate with VERIF_SEED=%s):' % case.get('seed'))
+        b, _cmp = judge_records(ctx, [rec])
         bad = b.get(0)
     else:
         raise core.MachineryError('unknown replay kind %r' % kind)
